@@ -157,6 +157,7 @@ pub fn run_arch(sc: &Value, id: usize, out: Out) {
             "partial_relu" => arch.partial_relu(us(&c["idx"])).is_ok(),
             "relu" => arch.relu().is_ok(),
             "partial_leaky_relu" => arch.partial_leaky_relu(us(&c["idx"]), 0.5).is_ok(),
+            "partial_leaky_relu_one" => arch.partial_leaky_relu(us(&c["idx"]), 1.0).is_ok(),
             "leaky_relu" => arch.leaky_relu(0.5).is_ok(),
             "partial_hard_tanh" => arch.partial_hard_tanh(us(&c["idx"])).is_ok(),
             "hard_tanh" => arch.hard_tanh().is_ok(),
